@@ -39,7 +39,7 @@ type ruleCtx struct {
 	props map[string]bool
 	st    *Stats
 	out   []Violation
-	ante  map[string]bool // rules whose antecedent was true in this run
+	ante  map[string]bool   // rules whose antecedent was true in this run
 	retag map[string]string // property id -> rule id under which its failures are reported
 }
 
